@@ -25,6 +25,9 @@ import (
 
 	. "verifharness/vhlib"
 
+	"github.com/hknutzen/Netspoc-Approve/go/pkg/cisco"
+	"github.com/hknutzen/Netspoc-Approve/go/pkg/device"
+	"github.com/hknutzen/Netspoc-Approve/go/pkg/deviceconf"
 	"github.com/hknutzen/Netspoc-Approve/go/pkg/drc"
 )
 
@@ -701,7 +704,7 @@ func modelCanon(c Case, ans string) string {
 		return ans
 	}
 	f := strings.Split(ans, "\t")
-	if len(f) != 4 || f[0] != "ok" {
+	if len(f) != 6 || f[0] != "ok" {
 		return "MODEL? " + ans
 	}
 	kind := map[string]string{}
@@ -763,6 +766,119 @@ func runReal(c Case) outcome {
 	stdout, stderr, _, panicMsg := Captured(drc.Main)
 	os.Args = old
 	return readOutcome(c.Dev, stdout, stderr, panicMsg)
+}
+
+// dumpReal: second, tighter tie for ASA / IOS — the ACL table and the bindings right after loadSpoc
+// (hooks device.VerifLoadSpoc, cisco.VerifACLDump), without the diff engine in between.  The files
+// of the case are those runReal has written.  "" = loadSpoc ended with an error or abort.
+func dumpReal(c Case) string {
+	var conf deviceconf.Config
+	var err error
+	_, _, _, panicMsg := Captured(func() int {
+		conf, err = device.VerifLoadSpoc(filepath.Join(caseDir, "spoc"))
+		return 0
+	})
+	if panicMsg != "" || err != nil || conf == nil {
+		return ""
+	}
+	acls, binds := cisco.VerifACLDump(conf)
+	tokOf := func(line string) string {
+		w := strings.Fields(line)
+		switch {
+		case strings.HasSuffix(line, "deny ip any6 any6"):
+			return "any6"
+		case len(w) >= 2 && w[len(w)-2] == "eq":
+			return w[len(w)-1]
+		case len(w) >= 2 && w[len(w)-2] == "remark":
+			return strings.TrimPrefix(w[len(w)-1], "r")
+		}
+		return "?" + line
+	}
+	type kv struct {
+		k int
+		v string
+	}
+	var as []kv
+	for name, lines := range acls {
+		var ts []string
+		for _, l := range lines {
+			ts = append(ts, tokOf(l))
+		}
+		as = append(as, kv{nameNum(name), strings.Join(ts, ",")})
+	}
+	sort.Slice(as, func(i, j int) bool { return as[i].k < as[j].k })
+	var bs []kv
+	for _, b := range binds {
+		w := strings.Fields(b[0])
+		key := -1
+		switch {
+		case w[0] == "access-group" && len(w) == 5:
+			i, _ := strconv.Atoi(strings.TrimPrefix(w[4], "if"))
+			key = i * 2
+			if w[2] == "out" {
+				key++
+			}
+		case w[0] == "interface" && len(w) == 7:
+			i, _ := strconv.Atoi(strings.TrimPrefix(w[1], "Ethernet"))
+			key = i * 2
+			if w[6] == "out" {
+				key++
+			}
+		}
+		bs = append(bs, kv{key, strconv.Itoa(nameNum(b[1]))})
+	}
+	sort.SliceStable(bs, func(i, j int) bool { return bs[i].k < bs[j].k })
+	var ps, qs []string
+	for _, e := range as {
+		ps = append(ps, fmt.Sprintf("%d:%s", e.k, e.v))
+	}
+	for _, e := range bs {
+		qs = append(qs, fmt.Sprintf("%d>%s", e.k, e.v))
+	}
+	return strings.Join(ps, ";") + " B " + strings.Join(qs, ",")
+}
+
+// modelDump: the same text from the driver's answer.
+func modelDump(c Case, ans string) string {
+	f := strings.Split(ans, "\t")
+	if len(f) != 6 || f[0] != "ok" {
+		return ""
+	}
+	kind := map[string]string{}
+	for _, fl := range []File{c.V4, c.V6, c.Raw} {
+		for _, ct := range fl.Conts {
+			for _, l := range ct.Lines {
+				kind[strconv.Itoa(l.ID)] = l.Kind
+			}
+		}
+	}
+	type kv struct {
+		k int
+		v string
+	}
+	var as []kv
+	if f[1] != "" {
+		for _, p := range strings.Split(f[1], ";") {
+			k, v, _ := strings.Cut(p, ":")
+			n, _ := strconv.Atoi(k)
+			var ts []string
+			if v != "" {
+				for _, id := range strings.Split(v, ",") {
+					if kind[id] == "6" && c.Dev == "asa" {
+						id = "any6"
+					}
+					ts = append(ts, id)
+				}
+			}
+			as = append(as, kv{n, strings.Join(ts, ",")})
+		}
+	}
+	sort.Slice(as, func(i, j int) bool { return as[i].k < as[j].k })
+	var ps []string
+	for _, e := range as {
+		ps = append(ps, fmt.Sprintf("%d:%s", e.k, e.v))
+	}
+	return strings.Join(ps, ";") + " B " + f[4]
 }
 
 // ---------------------------------------------------------------- the oracle (property text, no model of the code)
@@ -986,7 +1102,9 @@ func hasPermit(ls []Line) bool {
 }
 
 // oracle inspects the real outcome of one case.
-func oracle(c Case, o outcome) []violation {
+// safe6: the driver's value of `safeMerge` for the IPv6 stage, i.e. the hypothesis of the Lean theorem
+// cisco_netspoc_lines_kept_partial; its failure classifies F-C18g.
+func oracle(c Case, o outcome, safe6 bool) []violation {
 	var vs []violation
 	cisco := c.Dev == "asa" || c.Dev == "ios"
 	if o.Err == "panic 0" {
@@ -1072,7 +1190,7 @@ func oracle(c Case, o outcome) []violation {
 			// classify the one known way of losing IPv4 lines
 			for i := range l {
 				if l[i].pred == "entry_lost_or_duplicated" || l[i].pred == "foreign_entry" {
-					if shared := v6SharesName(c); shared {
+					if !safe6 {
 						l[i].pred = "v6_new_anchor_shares_acl_name_with_v4"
 					}
 				}
@@ -1528,7 +1646,16 @@ func runC18(ctx *Ctx) *Result {
 	runCase := func(c Case) {
 		o := runReal(c)
 		impl := o.canon()
-		model := modelCanon(c, drv.Ask(c.enc(genName)))
+		ans := drv.Ask(c.enc(genName))
+		model := modelCanon(c, ans)
+		if c.Dev == "asa" || c.Dev == "ios" {
+			if d := dumpReal(c); d != "" {
+				res.Count("tie:acl-table-after-loadSpoc")
+				if md := modelDump(c, ans); md != d {
+					res.Disagree("c18 ACL table after loadSpoc", c, d, md)
+				}
+			}
+		}
 		// statistics
 		res.Count("dev:" + c.Dev)
 		nApp, nNon, nRaw := 0, 0, 0
@@ -1583,10 +1710,76 @@ func runC18(ctx *Ctx) *Result {
 			res.Count("warnings:unused")
 		}
 		res.Count(fmt.Sprintf("raw-lines:%02d", min(nRaw, 12)))
+		// branches of the placement rule that the case reaches
+		branch := func(netspoc, raw []Line) {
+			if len(raw) == 0 {
+				return
+			}
+			app, netPermit := false, false
+			for _, l := range raw {
+				app = app || (l.App && l.Known)
+			}
+			for _, l := range netspoc {
+				switch c.Dev {
+				case "linux":
+					netPermit = netPermit || l.Kind != "d"
+				default:
+					netPermit = netPermit || l.Kind == "p"
+				}
+			}
+			switch {
+			case app && len(netspoc) == 0:
+				res.Count("branch:append-into-empty-list")
+			case app && !netPermit:
+				res.Count("branch:append-no-netspoc-permit")
+			case app:
+				res.Count("branch:append-behind-last-permit")
+			}
+			for i := len(raw) - 1; i >= 0; i-- {
+				if !raw[i].App {
+					if raw[i].Kind == "6" && c.Dev == "asa" {
+						res.Count("branch:any6-exception")
+					}
+					break
+				}
+			}
+		}
+		if c.Dev == "asa" || c.Dev == "ios" {
+			for _, a := range c.Raw.Anchors {
+				var net []Line
+				matched := false
+				if n, ok := boundBy(c.V4, a.Key); ok {
+					net, matched = append(net, contOf(c.V4, n).lines...), true
+				}
+				if n, ok := boundBy(c.V6, a.Key); ok {
+					net, matched = append(net, contOf(c.V6, n).lines...), true
+				}
+				if matched {
+					res.Count("branch:raw-binding-known-to-netspoc")
+				} else {
+					res.Count("branch:raw-binding-new")
+				}
+				branch(net, contOf(c.Raw, a.ACL).lines)
+			}
+		} else {
+			for _, ct := range c.Raw.Conts {
+				p4, p6 := contOf(c.V4, ct.Name), contOf(c.V6, ct.Name)
+				if p4.ok || p6.ok {
+					res.Count("branch:raw-container-known-to-netspoc")
+					branch(append(p4.lines, p6.lines...), contOf(c.Raw, ct.Name).lines)
+				} else {
+					res.Count("branch:raw-container-new")
+				}
+			}
+		}
 		if impl != model {
 			res.Disagree("c18 merged target", c, impl, model)
 		}
-		for _, v := range oracle(c, o) {
+		safe6 := !strings.HasSuffix(ans, "\tS6:0")
+		if safe6 != !v6SharesName(c) {
+			res.Count("note:safeMerge-differs-from-simple-shared-name-test")
+		}
+		for _, v := range oracle(c, o, safe6) {
 			res.Count("oracle:" + v.pred)
 			res.Fail(map[string]any{"pred": v.pred, "backend": c.Dev}, v.what, c)
 		}
